@@ -6,6 +6,7 @@ import RsMatterVerif.Lemmas.CodecHeaders
 import RsMatterVerif.Lemmas.CodecBtpBdx
 import RsMatterVerif.Lemmas.CodecQr
 import RsMatterVerif.Lemmas.CodecCheckIn
+import RsMatterVerif.Lemmas.CodecBleAdv
 /-!
 # C17 — headers, onboarding payloads and discovery records decode what was encoded
 
@@ -108,6 +109,14 @@ theorem manual_code_parse_encode (disc pw : Nat) (hd : disc < 4096) (hp : pw < 1
       ManualCode.parse code = .ok { short := disc / 256, pass := pw, vid := 0, pid := 0, long := false } :=
   ManualCode.parse_encode disc pw hd hp
 example : (3840 : Nat) < 4096 ∧ (20202021 : Nat) < 134217728 := by decide
+
+/-- 21-digit code (specification-side encoder; rs-matter only has the decoder): the decoder inverts the
+format of the Matter specification, including vendor and product id -/
+theorem manual_code_long_parse_spec_encode (disc pw vid pid : Nat) (hd : disc < 4096) (hp : pw < 134217728)
+    (hv : vid < 65536) (hpd : pid < 65536) :
+    ∃ code, ManualCode.specEncodeLong disc pw vid pid = .ok code ∧ code.length = 21 ∧
+      ManualCode.parse code = .ok { short := disc / 256, pass := pw, vid := vid, pid := pid, long := true } :=
+  ManualCode.parse_specEncodeLong disc pw vid pid hd hp hv hpd
 
 theorem manual_code_parse_total (code : List Nat) : NoPanic (ManualCode.parse code) :=
   ManualCode.parse_np code
@@ -268,5 +277,17 @@ theorem bdx_parsers_total (l : List Nat) (r : Bool) :
     NoPanic (Bdx.TransferInit.parse l) ∧ NoPanic (Bdx.TransferAccept.parse r l) ∧ NoPanic (Bdx.Block.parse l) ∧
     NoPanic (Bdx.blockQueryParse l) ∧ NoPanic (Bdx.blockQuerySkipParse l) :=
   ⟨Bdx.init_parse_np l, Bdx.accept_parse_np r l, Bdx.block_parse_np l, Bdx.blockQuery_np l, Bdx.blockQuerySkip_np l⟩
+
+/-! ## (10) BLE advertisement payload of a commissionable device (`AdvData`) -/
+
+theorem ble_adv_parse_encode (a : BleAdv.Adv) (hwf : BleAdv.WF a) :
+    BleAdv.parseServiceData (BleAdv.servicePayload a) = .ok (some a) ∧ BleAdv.parseAdv (BleAdv.encode a) = .ok (some a) :=
+  BleAdv.parse_encode a hwf
+example : BleAdv.WF { vid := 0xFFF1, pid := 0x8000, disc := 0xF00, additional := false } := by
+  refine ⟨by decide, by decide, by decide⟩
+
+theorem ble_adv_parse_total (adv : List Nat) :
+    NoPanic (BleAdv.parseAdv adv) ∧ NoPanic (BleAdv.parseServiceData adv) :=
+  ⟨BleAdv.parseAdv_np adv, BleAdv.parseServiceData_np adv⟩
 
 end C17
